@@ -35,7 +35,7 @@ thread_local! {
     pub static UNSUPPORTED_RAISED: std::cell::Cell<bool> = const { std::cell::Cell::new(false) };
 }
 
-fn throw_unsupported<T>(msg: &str) -> R<T> {
+pub fn throw_unsupported<T>(msg: &str) -> R<T> {
     UNSUPPORTED_RAISED.with(|c| c.set(true));
     throw(msg)
 }
@@ -83,6 +83,10 @@ pub struct Model {
     pub input: Vec<u8>,
     pub in_pos: usize,
     pub in_err_at: Option<usize>,
+    /// variables whose slot a FAILED operator-assignment dropped (left null by HEAD; another
+    /// implementation may restore the old value): reading one of them later in the same statement
+    /// makes the model decline
+    pub poisoned: Vec<String>,
 }
 
 pub const BUILTINS: &[&str] = &[
@@ -172,6 +176,7 @@ impl Model {
             input: Vec::new(),
             in_pos: 0,
             in_err_at: None,
+            poisoned: Vec::new(),
         }
     }
 
@@ -402,10 +407,15 @@ impl Model {
             },
             Ex::Num(n) => Ok(num_lit(n)),
             Ex::Str(s) => Ok(V::Str(s.clone())),
-            Ex::Var(name) => match Model::lookup(sc, name) {
-                Some(v) => Ok(v),
-                None => throw("name error: no such variable"),
-            },
+            Ex::Var(name) => {
+                if !self.poisoned.is_empty() && self.poisoned.iter().any(|n| n == name) {
+                    return unknown("reading a variable whose slot a failed operator-assignment dropped");
+                }
+                match Model::lookup(sc, name) {
+                    Some(v) => Ok(v),
+                    None => throw("name error: no such variable"),
+                }
+            }
             Ex::List(xs) => Ok(V::List(self.eval_seq(sc, xs)?)),
             Ex::Dict(def, kvs) => {
                 let dv = match def {
@@ -1522,6 +1532,9 @@ impl Model {
         match l {
             ELv::Underscore => throw("syntax error: underscore on lhs"),
             ELv::Ident(name, ixs) => {
+                if !self.poisoned.is_empty() && self.poisoned.iter().any(|n| n == name) {
+                    return unknown("reading a variable whose slot a failed operator-assignment dropped");
+                }
                 let mut v = match Model::lookup(sc, name) {
                     Some(v) => v,
                     None => return throw("name error: no such variable"),
@@ -2288,8 +2301,31 @@ impl Model {
         };
         let rv = self.eval_rhs(sc, rhs)?;
         self.drop_lhs(sc, &p)?;
-        let combined = self.call_func_at(sc, &f, vec![lhs_value, rv])?;
-        self.assign(sc, &p, None, combined)?;
+        let r = match self.call_func_at(sc, &f, vec![lhs_value, rv]) {
+            Ok(combined) => self.assign(sc, &p, None, combined),
+            Err(e) => Err(e),
+        };
+        if let Err(Ctl::Throw(_)) = &r {
+            // the slot stays dropped (null) on HEAD; what it holds now is not pinned down
+            let mut names = std::collections::BTreeSet::new();
+            fn collect(l: &ELv, out: &mut std::collections::BTreeSet<String>) {
+                match l {
+                    ELv::Ident(n, _) => {
+                        out.insert(n.clone());
+                    }
+                    ELv::Annot(i, _) | ELv::Default(i, _) | ELv::Splat(i) => collect(i, out),
+                    ELv::Seq(xs, _) | ELv::DStruct(_, xs) | ELv::DBuiltin(_, xs) => xs.iter().for_each(|x| collect(x, out)),
+                    ELv::Or(a, b) | ELv::And(a, b) => {
+                        collect(a, out);
+                        collect(b, out);
+                    }
+                    ELv::Underscore | ELv::Lit(_) => {}
+                }
+            }
+            collect(&p, &mut names);
+            self.poisoned.extend(names);
+        }
+        r?;
         Ok(V::Null)
     }
 
